@@ -853,6 +853,9 @@ pub fn def(tier: Tier) -> PropertyDef {
 		// long one-sided trends with a zig-zag: run, peak and "bars since" counters far from their start
 		let strat = (cfggen::config_strategy(name, GenOpts { wide: false, price_sources: true, nonneg_ma: false }), gen::trend_candle_stream(tier.pick(1500, 5000))).prop_map(|(cfg, s)| VCase { cfg, s });
 		checks.push(pt(&format!("trend_values_{name}"), tier.pick(40, 1200), strat, run));
+		// exactly representable lattice candles: ties between prices, averages and thresholds
+		let strat = (cfggen::config_strategy(name, GenOpts { wide: false, price_sources: true, nonneg_ma: false }), gen::lattice_candle_stream(tier.pick(200, 600))).prop_map(|(cfg, s)| VCase { cfg, s });
+		checks.push(pt(&format!("lattice_values_{name}"), tier.pick(300, 6000), strat, run));
 	}
 	checks.extend(crate::fuzz_entry::corpus_checks("C05"));
 	PropertyDef {
